@@ -65,6 +65,20 @@ def used_columns(stmt):
     """table -> set of its column names the statement uses anywhere (through direct references to the table too)."""
     direct = {x[2]: x[1][1] for x in sources_in(stmt) if x[0] == 'ref' and x[1][0] == 'table'}
     used = {}
+
+    def implicit(src):
+        """A query without an explicit selection projects every column of the tables (also referenced ones) it reads."""
+        if src[0] == 'table':
+            used.setdefault(src[1], set()).update(c for c, _ in dslgen.CATALOG[src[1]])
+        elif src[0] == 'ref' and src[1][0] == 'table':
+            implicit(src[1])
+        elif src[0] == 'join':
+            implicit(src[2])
+            implicit(src[3])
+
+    for x in sources_in(stmt):
+        if x[0] == 'query' and not x[2].get('sel'):
+            implicit(x[1])
     for f in statement_features(stmt):
         for g in walk(f):
             if g[0] == 'col':
